@@ -821,6 +821,198 @@ def _judge_scenario(rep, drv, scn, stride=1, offset=0, counters=None, perturb=No
     return injected
 
 
+# ------------------------------------------------------------------------------------------ composite backends
+# MultiFS (a writable layer shadowing stale copies in a lower layer), MountFS (two mounts), SubFS views and
+# WrapFS: the primitives of the MEMBERS are the steps (the hooks sit on FS / MemoryFS / OSFS); the Lean
+# model has no composites, so this phase is decided by the property's oracle alone (NoLoss; a failure is
+# reported unless the move is complete nevertheless).  workers = 0: the observation goes through the
+# composite's own read path, which takes its locks.
+
+OLD = b"STALE copy in the lower layer"
+CDATA = {"d/x": b"x" * 70000, "d/s/y": b"why", "d/z": b""}
+
+
+def _comp_read(f, path):
+    try:
+        return f.readbytes(path)
+    except Exception:  # noqa
+        return None
+
+
+class CObs(object):
+    def __init__(self, files, src, dst):
+        self.src_intact = self.dst_complete = self.no_loss = True
+        self.lost = []
+        for sp, (data, dp) in files.items():
+            a, b = _comp_read(src, sp) == data, _comp_read(dst, dp) == data
+            self.src_intact &= a
+            self.dst_complete &= b
+            if not (a or b):
+                self.no_loss = False
+                self.lost.append(sp)
+
+    def tup(self):
+        return (int(self.src_intact), int(self.dst_complete), int(self.no_loss))
+
+
+def _composite_configs(quick):
+    import fs.move
+    from fs.memoryfs import MemoryFS
+    from fs.multifs import MultiFS
+    from fs.mountfs import MountFS
+    from fs.wrapfs import WrapFS
+
+    def fill(f, base=""):
+        f.makedirs(base + "d/s", recreate=True)
+        for q, data in CDATA.items():
+            f.writebytes(base + q, data)
+        f.makedirs(base + "t", recreate=True)
+
+    def multi():
+        lower, upper, other = MemoryFS(), MemoryFS(), MemoryFS()
+        lower.makedirs("d/s")
+        for q in CDATA:
+            lower.writebytes(q, OLD)
+        fill(upper)
+        m = MultiFS()
+        m.add_fs("lower", lower, priority=1)
+        m.add_fs("upper", upper, write=True, priority=9)
+        other.makedir("t")
+        return m, other, [lower, upper, other, m]
+
+    def mount():
+        a, b = MemoryFS(), MemoryFS()
+        fill(a)
+        b.makedir("t")
+        mf = MountFS()
+        mf.mount("m1", a)
+        mf.mount("m2", b)
+        return mf, mf, [a, b, mf]
+
+    def sub(kind):
+        def mk():
+            parent, d = _new_fs(kind)
+            parent.makedirs("A")
+            parent.makedirs("B/t")
+            fill(parent, "A/")
+            return parent.opendir("A"), parent.opendir("B"), [parent], d
+        return mk
+
+    def wrap():
+        inner, other = MemoryFS(), MemoryFS()
+        fill(inner)
+        other.makedir("t")
+        return WrapFS(inner), WrapFS(other), [inner, other]
+
+    files_dir = lambda sroot, droot: {(sroot + q[1:]): (data, droot + q[1:]) for q, data in CDATA.items()}  # noqa: E731
+    cfgs = []
+    # (name, builder, [(opname, call(src,dst), files)])
+    cfgs.append(("multi-shadow", multi, [
+        ("FS.move", lambda s, d: s.move("d/x", "t/y"), {"d/x": (CDATA["d/x"], "t/y")}, "same"),
+        ("FS.move+pt", lambda s, d: s.move("d/x", "t/y", preserve_time=True), {"d/x": (CDATA["d/x"], "t/y")}, "same"),
+        ("FS.movedir", lambda s, d: s.movedir("d", "t2", create=True), files_dir("d", "t2"), "same"),
+        ("move_file", lambda s, d: fs.move.move_file(s, "d/x", d, "t/y"), {"d/x": (CDATA["d/x"], "t/y")}, "other"),
+        ("move_dir", lambda s, d: fs.move.move_dir(s, "d", d, "t"), files_dir("d", "t"), "other"),
+    ]))
+    cfgs.append(("mount", mount, [
+        ("FS.move across mounts", lambda s, d: s.move("m1/d/x", "m2/t/y"), {"m1/d/x": (CDATA["d/x"], "m2/t/y")}, "same"),
+        ("FS.move inside a mount", lambda s, d: s.move("m1/d/x", "m1/t/y"), {"m1/d/x": (CDATA["d/x"], "m1/t/y")}, "same"),
+        ("FS.movedir across mounts", lambda s, d: s.movedir("m1/d", "m2/t"), files_dir("m1/d", "m2/t"), "same"),
+        ("move_dir across mounts", lambda s, d: fs.move.move_dir(s, "m1/d", d, "m2/t"), files_dir("m1/d", "m2/t"), "same"),
+    ]))
+    for kind in (("mem",) if quick else ("mem", "os")):
+        cfgs.append(("sub-" + kind, sub(kind), [
+            ("move_file between views", lambda s, d: fs.move.move_file(s, "d/x", d, "t/y"), {"d/x": (CDATA["d/x"], "t/y")}, "other"),
+            ("move_dir between views", lambda s, d: fs.move.move_dir(s, "d", d, "t"), files_dir("d", "t"), "other"),
+            ("FS.move in a view", lambda s, d: s.move("d/x", "t/y"), {"d/x": (CDATA["d/x"], "t/y")}, "same"),
+            ("FS.movedir in a view", lambda s, d: s.movedir("d", "t"), files_dir("d", "t"), "same"),
+        ]))
+    cfgs.append(("wrap", wrap, [
+        ("FS.move", lambda s, d: s.move("d/x", "t/y"), {"d/x": (CDATA["d/x"], "t/y")}, "same"),
+        ("FS.movedir", lambda s, d: s.movedir("d", "t"), files_dir("d", "t"), "same"),
+        ("move_file", lambda s, d: fs.move.move_file(s, "d/x", d, "t/y"), {"d/x": (CDATA["d/x"], "t/y")}, "other"),
+    ]))
+    return cfgs
+
+
+def _composite_run(builder, fn, files, where, mode, k=None, kind=None):
+    built = builder()
+    src, dst, members = built[0], built[1], built[2]
+    scratch = built[3] if len(built) > 3 else None
+    if where == "same":
+        dst = src
+    ffs = FaultFS({}, lambda: CObs(files, src, dst), mode, k, kind)
+    exc = None
+    hung = False
+    try:
+        with ffs:
+            try:
+                H.with_watchdog(lambda: fn(src, dst), 30)
+            except H.Timeout:
+                hung = True
+            except Exception as e:  # noqa
+                exc = e
+        ffs.close_leftovers()
+        obs = CObs(files, src, dst)
+    finally:
+        for f in members:
+            try:
+                f.close()
+            except Exception:  # noqa
+                pass
+        if scratch:
+            shutil.rmtree(scratch, ignore_errors=True)
+    return ffs, exc, obs, hung
+
+
+def composite_phase(rep, quick, only=None):
+    n = 0
+    for cname, builder, ops in _composite_configs(quick):
+        for opname, fn, files, where in ops:
+            if only and only != [cname, opname]:
+                continue
+            base, exc0, obs0, hung = _composite_run(builder, fn, files, where, "record")
+            case0 = {"composite": [cname, opname]}
+            rep.programs += 1
+            rep.count("composite:" + cname)
+            if hung or exc0 is not None or not obs0.dst_complete:
+                rep.violation(dict(case0, raised=exc_class(exc0), obs=obs0.tup()),
+                              "un-faulted %s on %s: %s, observables %s" % (opname, cname, "hung" if hung else exc_class(exc0), obs0.tup()),
+                              found_input=True, signature="C07/composite/base")
+                continue
+            for k in range(base.count):
+                for kind in KINDS:
+                    name = base.trace[k][1]
+                    if (name.startswith("os.") or name.startswith("shutil.")) and kind == "fserr":
+                        continue
+                    ffs, exc, obs, hung = _composite_run(builder, fn, files, where, "fault", k, kind)
+                    n += 1
+                    rep.evaluations += 1
+                    if ffs.hit is None:
+                        rep.count("not-reached")
+                        continue
+                    hit = ffs.hit
+                    case = dict(case0, k=k, kind=kind, step=[str(x) for x in hit[1:]])
+                    rep.nontrivial("composite", cname, opname, kind, hit[1], exc_class(exc), obs.tup())
+                    rep.count("composite:%s:%s" % (kind, exc_class(exc)))
+                    what = "%s on %s with step %d (%s %r) raising %s" % (opname, cname, k, hit[1], hit[3], kind)
+                    if hung:
+                        rep.violation(case, what + ": did not return within 30 s", found_input=True, signature="C07/composite/hang")
+                    elif not obs.no_loss:
+                        rep.violation(dict(case, lost=obs.lost, raised=exc_class(exc)),
+                                      "%s: %s neither intact at the source nor complete at the destination (call %s)"
+                                      % (what, obs.lost, "returned" if exc is None else "raised " + exc_class(exc)),
+                                      found_input=True, signature="C07/composite/noloss")
+                    elif exc is None and not obs.dst_complete:
+                        rep.violation(dict(case, obs=obs.tup()), what + ": the failure was swallowed, the call returned although the move is incomplete",
+                                      found_input=True, signature="C07/composite/swallowed")
+                    elif exc is None and hit[1] in ("read", "write", "close", "readinto", "flush"):
+                        rep.violation(dict(case, obs=obs.tup()), what + ": the failure was not reported, the call returned normally",
+                                      found_input=True, signature="C07/composite/not-reported")
+    rep.extra["composite_injected_runs"] = n
+    return n
+
+
 # ------------------------------------------------------------------------------------------ scenario lists
 
 PAIRS = [("mem", "mem", False), ("os", "os", False), ("mem", "os", False), ("os", "mem", False), ("mem", None, True),
@@ -952,12 +1144,15 @@ def run(rep, tier, seed, deep=False):
         "(move_file_late_failure_cleanup_counterexample) and not injected on the real code",
         "os.rename is atomic; durability (fsync, page cache) is out of scope: a crash point is the state visible through the OS at that moment",
         "with workers > 0 the Lean theorem takes C09's bulk_error_never_hidden as hypothesis; the real runs compare against the workers=0 model by phase",
-        "source and destination are not two views of one storage (aliased SubFS/OSFS roots are not explored)",
+        "source and destination are not two views of one storage beyond disjoint SubFS views (aliased roots are C05's)",
+        "composite backends (MultiFS with a shadowed lower layer, MountFS, SubFS views, WrapFS) are outside the Lean model: "
+        "every member-level primitive of their moves is failed once per kind (workers=0) and judged by the oracle alone",
     ]
     counters = {}
     injected = 0
     try:
         known_regression(rep)
+        injected += composite_phase(rep, quick)
         if quick:
             for scn in QUICK_CORE:
                 injected += judge_scenario(rep, drv, scn, counters=counters)
@@ -993,6 +1188,12 @@ def run(rep, tier, seed, deep=False):
 def replay(rep, case):
     _load_proposed_findings(rep)
     c = case["case"]
+    if "composite" in c:
+        try:
+            composite_phase(rep, False, only=list(c["composite"]))
+        finally:
+            H.cleanup_scratch()
+        return 1 if rep.violations else 0
     if "scenario" not in c:
         known_regression(rep)
         return 1 if rep.violations else 0
